@@ -123,14 +123,17 @@ def handleMem (line : String) : String :=
           let ctlD := if isF then s!" c0:{hexB (si.data (.memCtrl, 0))} c1:{hexB (si.data (.ioCtrl, 0))}" else ""
           let ctlS := if isF then s!" c0:{si.stat (.memCtrl, 0)} c1:{si.stat (.ioCtrl, 0)}" else ""
           let expD := "D" ++ imageStr k tw (fun c => hexB (si.data c)) (fun c => si.data c == 0) ctlD
-          let expS := "S" ++ imageStr k ta (fun c => toString (si.stat c)) (fun c => si.stat c == 0) ctlS
+          let lutS (st : MemState) : String :=
+            if isF then String.join ((List.range 32).map fun i =>
+              if st.stat (.lut, i) == 0 then "" else s!" t{i}:{st.stat (.lut, i)}") else ""
+          let expS := "S" ++ imageStr k ta (fun c => toString (si.stat c)) (fun c => si.stat c == 0) ctlS ++ lutS si
           let diffs := if flavour != "6" && flavour != "7" && sD != expD then diffs ++ ["image"] else diffs
           let diffs := if flavour == "6" && sS != expS then diffs ++ ["stats"] else diffs
           -- the same images from the specification interpreter
           let sctlD := if isF then s!" c0:{hexB (ss.data (.memCtrl, 0))} c1:{hexB (ss.data (.ioCtrl, 0))}" else ""
           let sctlS := if isF then s!" c0:{ss.stat (.memCtrl, 0)} c1:{ss.stat (.ioCtrl, 0)}" else ""
           let sexpD := "D" ++ imageStr k stw (fun c => hexB (ss.data c)) (fun c => ss.data c == 0) sctlD
-          let sexpS := "S" ++ imageStr k sta (fun c => toString (ss.stat c)) (fun c => ss.stat c == 0) sctlS
+          let sexpS := "S" ++ imageStr k sta (fun c => toString (ss.stat c)) (fun c => ss.stat c == 0) sctlS ++ lutS ss
           let viols := if flavour != "6" && flavour != "7" && sD != sexpD then viols ++ ["image"] else viols
           let viols := if flavour == "6" && sS != sexpS then viols ++ ["stats"] else viols
           -- C07 self-consistency: every image after a restore equals the image at the latest snapshot
